@@ -258,8 +258,90 @@ fn check_current(seed: u64, drv: &mut Drv, rep: &mut Report) {
     }
 }
 
+/// `DB::open` on a closed database from which a live table file was removed (and possibly replaced
+/// by a file with another spelling or kind of the same number): fails with "missing files" iff the
+/// model's `missingFiles` over the names of the three folders is non-empty.
+fn check_missing(seed: u64, drv: &mut Drv, rep: &mut Report) {
+    let mut rng = Prng::new(seed);
+    let fs = SimFs::new();
+    let cfg = Cfg { share: false, ..Cfg::gen(&mut rng) };
+    let line0 = format!("fnames missing seed={seed} cfg={}", cfg.to_tok());
+    let live: Vec<u64> = {
+        let db = match DB::open(cfg.options(&fs)) {
+            Ok(d) => d,
+            Err(e) => {
+                rep.fail("oracle", "c01:open-failed", &format!("DB::open on an empty filesystem failed: {e}"), &line0);
+                return;
+            }
+        };
+        for i in 0..rng.range(20, 120) {
+            let _ = db.put(raindb::WriteOptions::default(), format!("k{:04}", i * 7 % 97).into_bytes(), vec![b'v'; rng.range(1, 200) as usize]);
+        }
+        if rng.chance(1, 2) {
+            db.compact_range(None..None);
+        }
+        db.verif_wait_idle(std::time::Duration::from_secs(20));
+        db.verif_state().levels.iter().flatten().map(|f| f.number).collect()
+    };
+    if live.is_empty() {
+        rep.count("missing.no-table");
+        return;
+    }
+    let victim = *rng.pick(&live);
+    let vpath = format!("/db/data/{victim}.rdb");
+    let variants: Vec<(&str, Option<String>)> = vec![
+        ("intact", None),
+        ("removed", Some(String::new())),
+        ("plus-spelling", Some(format!("/db/data/+{victim}.rdb"))),
+        ("zero-spelling", Some(format!("/db/data/0{victim}.rdb"))),
+        ("as-temp-file", Some(format!("/db/{victim}.dbtemp"))),
+        ("as-backup", Some(format!("/db/data/{victim}.rdb.bak"))),
+        ("in-wal-folder", Some(format!("/db/wal/{victim}.rdb"))),
+    ];
+    for (what, replacement) in variants {
+        let line = format!("{line0} victim={victim} variant={what}");
+        rep.case(&line, true);
+        let img = fs.snapshot();
+        if let Some(r) = &replacement {
+            use raindb::fs::FileSystem;
+            let data = img.read_file(Path::new(&vpath)).unwrap_or_default();
+            let _ = img.remove_file(Path::new(&vpath));
+            if !r.is_empty() {
+                img.write_file_raw(Path::new(r), data);
+            }
+        }
+        let names: Vec<String> = img.all_files().iter().map(|(p, _)| p.to_string_lossy().to_string()).filter(|p| {
+            let rest = p.strip_prefix("/db/").unwrap_or("");
+            !rest.is_empty() && (!rest.contains('/') || (rest.starts_with("wal/") && rest.matches('/').count() == 1) || (rest.starts_with("data/") && rest.matches('/').count() == 1))
+        }).map(|p| p.rsplit('/').next().unwrap_or("").to_string()).collect();
+        let opts = raindb::DbOptions { create_if_missing: false, ..cfg.options(&img) };
+        let opened = match crate::dbsim::with_deadline(30, move || DB::open(opts).map(|_| ()).map_err(|e| e.to_string())) {
+            Some(r) => r,
+            None => {
+                rep.fail("oracle", "c09:open-hangs", &format!("DB::open does not return ({what})"), &line);
+                continue;
+            }
+        };
+        let ans = drv.ask(&format!("fname.missing {} {}", live.iter().map(|n| n.to_string()).collect::<Vec<_>>().join(","), names.iter().map(|n| enc(n)).collect::<Vec<_>>().join(";")));
+        if ans == "no-model" {
+            continue;
+        }
+        rep.model_requests += 1;
+        rep.count(&format!("missing.{what}.{}", if opened.is_ok() { "opened" } else { "rejected" }));
+        let model_opens = ans == "-";
+        if what == "removed" && opened.is_ok() {
+            rep.fail("oracle", "c15:missing-table-not-detected", &format!("table {victim} of the current version was removed from the closed database and DB::open succeeded"), &line);
+        } else if what == "intact" && opened.is_err() {
+            rep.fail("oracle", "c02:clean-database-does-not-open", &format!("a cleanly closed database does not open again: {opened:?}"), &line);
+        } else if opened.is_ok() != model_opens {
+            rep.drift.push(format!("the missing-files test of recovery differs from the model: variant {what}, implementation {}, model reports missing [{ans}] :: {line}", match &opened { Ok(()) => "opened".to_string(), Err(e) => format!("failed: {e}") }));
+            rep.count("model_drift");
+        }
+    }
+}
+
 pub fn rule() -> &'static str {
-    "the real FileNameHandler against the Lean model: the path of every kind of file for generated numbers (small, around powers of ten, powers of two, u64::MAX) - placed directly in its folder, read back by the real parser as the same kind and number (oracle), equal to the model's name; the real parser against the model's on generated names (canonical names, signs, leading zeros, overflowing digit strings, wrong case, double and empty extensions, dot files, non-ASCII digits, CURRENT / LOCK look-alikes); DB::open on a closed database whose CURRENT was replaced (no newline, two newlines, non-canonical numbers, other kinds, truncations) opens iff the model reads the contents as the existing manifest's number. Non-trivial = a formatted name, a name the parser accepts, a CURRENT variant; distinct by case text."
+    "the real FileNameHandler against the Lean model: the path of every kind of file for generated numbers (small, around powers of ten, powers of two, u64::MAX) - placed directly in its folder, read back by the real parser as the same kind and number (oracle), equal to the model's name; the real parser against the model's on generated names (canonical names, signs, leading zeros, overflowing digit strings, wrong case, double and empty extensions, dot files, non-ASCII digits, CURRENT / LOCK look-alikes); DB::open on a closed database whose CURRENT was replaced (no newline, two newlines, non-canonical numbers, other kinds, truncations) opens iff the model reads the contents as the existing manifest's number; DB::open on a closed database from which a live table was removed - and replaced by a file with another spelling (+n, 0n), another kind (n.dbtemp), a backup name or in another folder - fails iff the model's missingFiles over the names of the three folders is non-empty (a removed table that nothing replaces must be detected: oracle). Non-trivial = a formatted name, a name the parser accepts, a CURRENT variant; distinct by case text."
 }
 
 pub fn run(tier: &str, seed: u64, replay: Option<&str>, drv_path: &str) -> Report {
@@ -274,6 +356,10 @@ pub fn run(tier: &str, seed: u64, replay: Option<&str>, drv_path: &str) -> Repor
         } else if line.contains(" parse ") {
             if let Some(nm) = get("name").and_then(|s| dec(&s)) {
                 check_parse(&nm, &mut drv, &mut rep);
+            }
+        } else if line.contains(" missing ") {
+            if let Some(s) = get("seed").and_then(|s| s.parse().ok()) {
+                check_missing(s, &mut drv, &mut rep);
             }
         } else if line.contains(" current ") {
             if let Some(s) = get("seed").and_then(|s| s.parse().ok()) {
@@ -309,6 +395,9 @@ pub fn run(tier: &str, seed: u64, replay: Option<&str>, drv_path: &str) -> Repor
     let nc = if tier == "thorough" { 60 } else { 8 };
     for _ in 0..nc {
         check_current(rng.next() % 1_000_000, &mut drv, &mut rep);
+    }
+    for _ in 0..nc {
+        check_missing(rng.next() % 1_000_000, &mut drv, &mut rep);
     }
     rep
 }
